@@ -288,6 +288,7 @@ def check_C11(ctx):
 
     ctx.stream("filters", 150, 800)
     ctx.stream("dispatch", 100, 600)
+    ctx.stream("used_leaves", 150, 500)
     rng = random.Random("c11-%d" % ctx.seed)
     progs = _programs(ctx, 6 if ctx.quick else 40)
     cases, groups = [], []
@@ -295,7 +296,10 @@ def check_C11(ctx):
         for hk, pats_pool in FILTERABLE.items():
             for kind in ("only", "ignore"):
                 pats = rng.sample(pats_pool, rng.randrange(1, 3))
-                other = rng.choice([x for x in HOOK_POOL if x != hk and x not in EXEC_LEVEL])
+                # the other hook of the same analysis: alternately an ancestor of the filtered hook and a random one
+                anc = {"integer": ["literal", "runtime_event"], "boolean": ["literal", "runtime_event"], "string": ["literal", "runtime_event"],
+                       "pre_call": ["control_flow_event", "runtime_event"], "post_call": ["control_flow_event", "runtime_event"]}[hk]
+                other = rng.choice(anc) if (kind == "only") == (len(groups) % 2 == 0) else rng.choice([x for x in HOOK_POOL if x != hk and x not in EXEC_LEVEL])
                 a_f = {"cls": "A0", "hooks": {hk: [kind, pats], other: None}}
                 a_u = {"cls": "A0", "hooks": {hk: None, other: None}}
                 b = {"cls": "B0", "hooks": {hk: None}}
